@@ -259,4 +259,9 @@ theorem Finding_cog20_energy_tree :
   simp only [epv_leaf]
   norm_num
 
+/-- non-vacuity of the hypotheses of the tree-level theorems (class defaults, r = 2, t = 1/2) -/
+example : ∃ p : Cog20.P, ∃ r t : ℝ, 0 < r ∧ 0 < r - p.u0 * t ∧ 0 < 1 - p.a * t ∧ r ≠ cog20_shock p t := by
+  refine ⟨⟨40, 3 / 10, 0, 0, 0, 0, 7 / 5, 3, 0, 9 / 5, 23 / 10⟩, 2, 1 / 2, by norm_num, by norm_num, by norm_num, ?_⟩
+  unfold cog20_shock; norm_num
+
 end EPV.C01
